@@ -304,6 +304,10 @@ type IsX struct {
 	NilR   string `json:"nilR"`   // Is(e, nil)
 	NilNil string `json:"nilnil"` // Is(nil, nil)
 	AnyNil string `json:"anyNil"` // IsAny(e, nil)
+	// IsAny against the references held by the OTHER slots only, in pool
+	// order and in reverse order
+	AnyOther    string `json:"anyOther"`
+	AnyOtherRev string `json:"anyOtherRev"`
 }
 
 func b2s(f func() bool) (res string) {
@@ -319,14 +323,20 @@ func b2s(f func() bool) (res string) {
 }
 
 // IsXOf evaluates them.
-func IsXOf(e error, pool []error) *IsX {
+func IsXOf(e error, pool []error, others []error) *IsX {
+	rev := make([]error, len(others))
+	for i, r := range others {
+		rev[len(others)-1-i] = r
+	}
 	return &IsX{
-		Any:    b2s(func() bool { return errors.IsAny(e, pool...) }),
-		None:   b2s(func() bool { return errors.IsAny(e) }),
-		NilL:   b2s(func() bool { return errors.Is(nil, e) }),
-		NilR:   b2s(func() bool { return errors.Is(e, nil) }),
-		NilNil: b2s(func() bool { return errors.Is(nil, nil) }),
-		AnyNil: b2s(func() bool { return errors.IsAny(e, nil) }),
+		AnyOther:    b2s(func() bool { return errors.IsAny(e, others...) }),
+		AnyOtherRev: b2s(func() bool { return errors.IsAny(e, rev...) }),
+		Any:         b2s(func() bool { return errors.IsAny(e, pool...) }),
+		None:        b2s(func() bool { return errors.IsAny(e) }),
+		NilL:        b2s(func() bool { return errors.Is(nil, e) }),
+		NilR:        b2s(func() bool { return errors.Is(e, nil) }),
+		NilNil:      b2s(func() bool { return errors.Is(nil, nil) }),
+		AnyNil:      b2s(func() bool { return errors.IsAny(e, nil) }),
 	}
 }
 
@@ -477,6 +487,7 @@ type PVerbose struct {
 	Types  []string   `json:"types"`  // the "Error types" line, as catalogue names
 	Words  [][]string `json:"words"`  // words of each entry
 	Lits   [][]string `json:"lits"`   // detail literals of the library found in each entry
+	Toks   [][]string `json:"toks"`   // tokens of the beginning (300 bytes) of each entry
 }
 
 // Fmt abstracts the formatting behaviour of a value (C09).
@@ -493,7 +504,7 @@ type Fmt struct {
 var entryRe = regexp.MustCompile(`^((?:  )*)(└─ )?Wraps: \((\d+)\)`)
 
 func parseVerbose(out, text string) *PVerbose {
-	p := &PVerbose{Depths: []int{}, Types: []string{}, Words: [][]string{}, Lits: [][]string{}}
+	p := &PVerbose{Depths: []int{}, Types: []string{}, Words: [][]string{}, Lits: [][]string{}, Toks: [][]string{}}
 	p.Starts = strings.HasPrefix(out, text)
 	body := out
 	if i := strings.LastIndex(out, "\nError types:"); i >= 0 {
@@ -537,6 +548,11 @@ func parseVerbose(out, text string) *PVerbose {
 	p.NEnt = len(bufs)
 	for _, b := range bufs {
 		p.Words = append(p.Words, tok.Words(b))
+		head := b
+		if len(head) > 300 {
+			head = head[:300]
+		}
+		p.Toks = append(p.Toks, tok.Lex(head))
 		lits := []string{}
 		for name, txt := range cat.DetailLits {
 			if strings.Contains(b, txt) {
@@ -560,7 +576,10 @@ func FmtSpecs() []string {
 				continue // %#v is the Go-syntax form
 			}
 			for _, w := range []string{"", "3", "40"} {
-				for _, pr := range []string{"", ".0", ".2", ".50"} {
+				for _, pr := range []string{"", ".2", ".50"} {
+					if w == "3" && pr != "" {
+						continue
+					}
 					out = append(out, "%"+flags+w+pr+verb)
 				}
 			}
@@ -863,4 +882,82 @@ func StdOf(e error, pool []error) *Std {
 	s.LibRoot = indexOf(nodes, errors.UnwrapAll(e))
 	s.CauseEq = sameNode(errors.Cause(e), errors.UnwrapAll(e))
 	return s
+}
+
+// WNode abstracts one node of the EncodedError produced for a value: the
+// fields the specification's Enc operator predicts (conformance of the
+// encoders, spec/Wire.tla).
+type WNode struct {
+	K    string   `json:"k"`    // leaf | wrap
+	Msg  []string `json:"msg"`  // message (["?"] for barriers: the redactable form is not modelled)
+	Fam  string   `json:"fam"`  // error_type_mark.family_name
+	TN   string   `json:"tn"`   // original_type_name
+	Ext  []string `json:"ext"`  // error_type_mark.extension
+	Full bool     `json:"full"` // message_type == FULL_MESSAGE
+	Pay  string   `json:"pay"`  // kind of full_details payload
+	Kids []*WNode `json:"kids"`
+}
+
+func payKind(a *types.Any) string {
+	if a == nil {
+		return "none"
+	}
+	var da types.DynamicAny
+	if err := types.UnmarshalAny(a, &da); err != nil {
+		return "bad"
+	}
+	switch da.Message.(type) {
+	case *errorspb.StringPayload:
+		return "String"
+	case *errorspb.StringsPayload:
+		return "Strings"
+	case *errorspb.TagsPayload:
+		return "Tags"
+	case *errorspb.MarkPayload:
+		return "Mark"
+	case *errorspb.ErrnoPayload:
+		return "Errno"
+	case *errorspb.EncodedError:
+		return "EncodedError"
+	case *errorspb.TestError:
+		return "uProto"
+	case *exthttp.EncodedHTTPCode, *extgrpc.EncodedGrpcCode:
+		return "Code"
+	}
+	return "Status"
+}
+
+func wnode(enc *errorspb.EncodedError) *WNode {
+	n := &WNode{Kids: []*WNode{}}
+	var det *errorspb.EncodedErrorDetails
+	msg := ""
+	if w := enc.GetWrapper(); w != nil {
+		n.K, det, msg = "wrap", &w.Details, w.Message
+		n.Full = w.MessageType == errorspb.MessageType_FULL_MESSAGE
+		n.Kids = append(n.Kids, wnode(&w.Cause))
+	} else if l := enc.GetLeaf(); l != nil {
+		n.K, det, msg = "leaf", &l.Details, l.Message
+		for _, c := range l.MultierrorCauses {
+			n.Kids = append(n.Kids, wnode(c))
+		}
+	} else {
+		n.K = "unset"
+		return n
+	}
+	n.Fam = cat.FamOf(det.ErrorTypeMark.FamilyName)
+	n.TN = cat.FamOf(det.OriginalTypeName)
+	n.Ext = tok.Lex(det.ErrorTypeMark.Extension)
+	n.Pay = payKind(det.FullDetails)
+	if n.Fam == "barrierErr" {
+		n.Msg = []string{"?"}
+	} else {
+		n.Msg = tok.Lex(msg)
+	}
+	return n
+}
+
+// WireOf abstracts EncodeError(e).
+func WireOf(e error) *WNode {
+	enc := errors.EncodeError(context.Background(), e)
+	return wnode(&enc)
 }
